@@ -16,62 +16,77 @@ Key == 0..4     \* keys stored in populations are 1..3; 0 and 4 are outside prob
 (* ids are fillers the harness inserts and removes (swap-removed posting   *)
 (* lists); `ia` is the value of `a` at insertion time, the harness updates *)
 (* the document to `a` afterwards (posting order scrambled by updates).    *)
-D(live, ia, a, b, rank) == [live |-> live, ia |-> ia, a |-> a, b |-> b, rank |-> rank]
+D(live, ia, a, b, rank, trank) == [live |-> live, ia |-> ia, a |-> a, b |-> b, rank |-> rank, trank |-> trank]
 
-Pop1 == <<  D(TRUE,  {3}, {3}, {1,3},   4),
-            D(TRUE,  {3}, {3}, {},      2),
-            D(TRUE,  {2}, {2}, {2},     6),
-            D(TRUE,  {1}, {1}, {1,2,3}, 1),
-            D(TRUE,  {2}, {2}, {3},     5),
-            D(TRUE,  {1}, {1}, {1,2},   3) >>
+Pop1 == <<  D(TRUE,  {3}, {3}, {1,3},   4, 3),
+            D(TRUE,  {3}, {3}, {},      2, 0),
+            D(TRUE,  {2}, {2}, {2},     6, 1),
+            D(TRUE,  {1}, {1}, {1,2,3}, 1, 6),
+            D(TRUE,  {2}, {2}, {3},     5, 2),
+            D(TRUE,  {1}, {1}, {1,2},   3, 5) >>
 
 \* swap-removed postings: ids 1 and 4 are removed after everything was inserted
-Pop2 == <<  D(FALSE, {2}, {2}, {2},     7),
-            D(TRUE,  {2}, {2}, {3},     3),
-            D(TRUE,  {2}, {2}, {1},     1),
-            D(FALSE, {1}, {1}, {1,3},   8),
-            D(TRUE,  {2}, {2}, {2,3},   5),
-            D(TRUE,  {2}, {2}, {1},     2),
-            D(TRUE,  {1}, {1}, {},      4) >>
+Pop2 == <<  D(FALSE, {2}, {2}, {2},     7, 9),
+            D(TRUE,  {2}, {2}, {3},     3, 2),
+            D(TRUE,  {2}, {2}, {1},     1, 0),
+            D(FALSE, {1}, {1}, {1,3},   8, 8),
+            D(TRUE,  {2}, {2}, {2,3},   5, 1),
+            D(TRUE,  {2}, {2}, {1},     2, 3),
+            D(TRUE,  {1}, {1}, {},      4, 4) >>
 
 \* missing values, values moved by updates
-Pop3 == <<  D(TRUE,  {1}, {},  {3},     2),
-            D(TRUE,  {1}, {3}, {},      5),
-            D(TRUE,  {},  {},  {},      1),
-            D(TRUE,  {3}, {1}, {2},     4),
-            D(TRUE,  {2}, {3}, {1,2,3}, 3) >>
+Pop3 == <<  D(TRUE,  {1}, {},  {3},     2, 0),
+            D(TRUE,  {1}, {3}, {},      5, 1),
+            D(TRUE,  {},  {},  {},      1, 2),
+            D(TRUE,  {3}, {1}, {2},     4, 0),
+            D(TRUE,  {2}, {3}, {1,2,3}, 3, 3) >>
 
 \* a single key everywhere / empty b
-Pop4 == <<  D(TRUE,  {2}, {2}, {},      3),
-            D(TRUE,  {2}, {2}, {},      1),
-            D(TRUE,  {2}, {2}, {},      2) >>
+Pop4 == <<  D(TRUE,  {2}, {2}, {},      3, 0),
+            D(TRUE,  {2}, {2}, {},      1, 0),
+            D(TRUE,  {2}, {2}, {},      2, 0) >>
 
 \* descending keys, many dead ids
-Pop5 == <<  D(TRUE,  {3}, {3}, {3},     1),
-            D(FALSE, {3}, {3}, {3},     9),
-            D(TRUE,  {1}, {2}, {2,3},   2),
-            D(FALSE, {2}, {2}, {2},     9),
-            D(FALSE, {1}, {1}, {1},     9),
-            D(TRUE,  {2}, {1}, {1},     3),
-            D(TRUE,  {3}, {1}, {1,3},   4) >>
+Pop5 == <<  D(TRUE,  {3}, {3}, {3},     1, 1),
+            D(FALSE, {3}, {3}, {3},     9, 9),
+            D(TRUE,  {1}, {2}, {2,3},   2, 0),
+            D(FALSE, {2}, {2}, {2},     9, 9),
+            D(FALSE, {1}, {1}, {1},     9, 9),
+            D(TRUE,  {2}, {1}, {1},     3, 2),
+            D(TRUE,  {3}, {1}, {1,3},   4, 3) >>
 
 \* empty collection after removals
-Pop6 == <<  D(FALSE, {1}, {1}, {1},     1),
-            D(FALSE, {2}, {2}, {2},     2) >>
+Pop6 == <<  D(FALSE, {1}, {1}, {1},     1, 0),
+            D(FALSE, {2}, {2}, {2},     2, 0) >>
 
 \* one document
-Pop7 == <<  D(TRUE,  {2}, {2}, {1,3},   1) >>
+Pop7 == <<  D(TRUE,  {2}, {2}, {1,3},   1, 1) >>
 
 \* ascending (the only correlated one - must agree too)
-Pop8 == <<  D(TRUE,  {1}, {1}, {1},     6),
-            D(TRUE,  {1}, {1}, {1,2},   5),
-            D(TRUE,  {2}, {2}, {2},     4),
-            D(TRUE,  {2}, {2}, {2,3},   3),
-            D(TRUE,  {3}, {3}, {3},     2),
-            D(TRUE,  {3}, {3}, {},      1) >>
+Pop8 == <<  D(TRUE,  {1}, {1}, {1},     6, 1),
+            D(TRUE,  {1}, {1}, {1,2},   5, 2),
+            D(TRUE,  {2}, {2}, {2},     4, 3),
+            D(TRUE,  {2}, {2}, {2,3},   3, 4),
+            D(TRUE,  {3}, {3}, {3},     2, 5),
+            D(TRUE,  {3}, {3}, {},      1, 6) >>
 
-Pops == IF Tier = "quick" THEN <<Pop1, Pop2, Pop3>>
-        ELSE <<Pop1, Pop2, Pop3, Pop4, Pop5, Pop6, Pop7, Pop8>>
+\* more candidates than one index's top_k (10 for limit 1): the most relevant documents have the
+\* largest ids, text and vector rankings disagree
+Pop9 == <<  D(TRUE,  {1}, {1}, {1},     12, 11),
+            D(TRUE,  {2}, {2}, {2},     11, 12),
+            D(TRUE,  {3}, {3}, {3},     10, 9),
+            D(TRUE,  {1}, {1}, {},      9, 10),
+            D(TRUE,  {2}, {2}, {1,2},   8, 0),
+            D(TRUE,  {3}, {3}, {2,3},   7, 8),
+            D(TRUE,  {1}, {1}, {3},     6, 7),
+            D(TRUE,  {2}, {2}, {1},     5, 6),
+            D(TRUE,  {3}, {3}, {2},     4, 5),
+            D(TRUE,  {1}, {2}, {1,3},   3, 4),
+            D(TRUE,  {2}, {3}, {3},     2, 3),
+            D(TRUE,  {3}, {1}, {1},     1, 1) >>
+
+Pops == IF Tier = "quick" THEN <<Pop1, Pop2, Pop3, Pop9>>
+        ELSE <<Pop1, Pop2, Pop3, Pop4, Pop5, Pop6, Pop7, Pop8, Pop9>>
 
 ---------------------------------------------------------------------------
 (* Families of range queries.                                              *)
@@ -173,14 +188,15 @@ Case ==
   LET pop  == Pops[pi]
       sem  == Sem(flt, pop)
       full == Asc(sem)
-      srch == SearchFull(pop, sem)
       lims == LimitsFor(Cardinality(Live(pop)))
   IN  IF Tier = "quick"
       THEN [p |-> pi, f |-> flt, full |-> full,
             pages |-> [i \in 1..Len(lims) |->
                          <<lims[i], PageFirst(full, lims[i]), PageLast(full, lims[i]),
-                           Take(srch, EffSearchLimit(lims[i]))>>]]
-      ELSE [p |-> pi, f |-> flt, full |-> full, srch |-> srch]
+                           SearchPageOf(pop, sem, lims[i], "vec"), SearchPageOf(pop, sem, lims[i], "hybrid")>>]]
+      ELSE [p |-> pi, f |-> flt, full |-> full,
+            srch |-> [i \in 1..Len(lims) |->
+                         <<lims[i], SearchPageOf(pop, sem, lims[i], "vec"), SearchPageOf(pop, sem, lims[i], "hybrid")>>]]
 
 Emit == fi > 0 => PrintT(<<"REPLAY", ToJson(Case)>>)
 
